@@ -25,7 +25,7 @@ ASSUMPTIONS = [
     "pycryptodome's RSA primitive is trusted only as far as it agrees with pow(m, e, n) from the reference",
     "a decryptable blob whose size field is smaller than the bytes present is not judged (the surplus is ignored)",
 ]
-REQUIRED_MONITORS = ["lib.encrypt->ref.decrypt", "ref.encrypt->lib.decrypt", "overlimit", "negative.blob", "derive"]
+REQUIRED_MONITORS = ["lib.encrypt->ref.decrypt", "ref.encrypt->lib.decrypt", "overlimit", "negative.blob", "derive", "derive.session"]
 
 KEYS = ["rsa1024_a", "rsa1024_b", "rsa2048_a", "rsa2048_b"]
 _keys = {}
@@ -131,6 +131,39 @@ def check_case(case, ctx):
             ctx.violation("negative.blob", f"{case['what']}: {type(e).__name__}: {e} instead of ValueError", case)
             return
         ctx.violation("negative.blob", f"{case['what']}: accepted as {core.short(fields_of(m))}", case)
+    elif op == "session":
+        # the traffic decoder's own derivation path: after the first check-in the session keys must be the SHA-256 halves
+        # of the metadata's random bytes, whatever partial key material the decoder was constructed with
+        from dissect.cobaltstrike import beacon
+        from vf.ref import config as C
+        from vf.ref import tlv
+
+        ctx.mon("derive.session")
+        k = key(case["key"])
+        rng = random.Random(case["seed"])
+        settings, model = C.build_http_config(rng, keyname=case["key"], extras=False, allow_uri=False)
+        cfg = beacon.BeaconConfig(tlv.encode(settings) + b"\0\0")
+        fields = gen_fields(rng)
+        d = hashlib.sha256(fields["aes_rand"]).digest()
+        blob = R.rsa_encrypt_pkcs1(rng, k.n, k.e, R.meta_pack(fields, b"HOST\tuser\tp.exe"))
+        variant = case["variant"]
+        kw = {"rsa_private_key": k}
+        if variant == "rsa+aes":
+            kw["aes_key"] = d[:16]
+        elif variant == "rsa+aes+hmac":
+            kw.update(aes_key=d[:16], hmac_key=d[16:])
+        try:
+            dec = c2.C2Http(cfg, **kw)
+            req = dec.transform_get.transform(c2.C2Data(metadata=blob), c2.HttpRequest(method=dec.get_verb, uri=dec.get_uris[0], params={}, headers={}, body=b""))
+            pk = list(dec.iter_recover_http(req))
+        except Exception as e:  # noqa: BLE001
+            ctx.violation("derive.session", f"[{variant}] {type(e).__name__}: {e}", case)
+            return
+        got = (dec.beacon_keys.aes_key, dec.beacon_keys.hmac_key)
+        if len(pk) != 1 or bytes(pk[0].aes_rand) != fields["aes_rand"] or got != (d[:16], d[16:]):
+            ctx.violation("derive.session", f"[{variant}] after the check-in the decoder's session keys are {core.short(got)}; SHA-256 halves of the metadata's random bytes are {core.short((d[:16], d[16:]))}", case)
+            return
+        ctx.ok(fp=("session", case["key"], case["seed"], variant), case=case, classes=(f"session:{variant}",))
     elif op == "derive":
         seed = case["rand"]
         ctx.mon("derive")
@@ -174,6 +207,7 @@ def plan(tier, seed):
     shards.append({"kind": "negative", "n": 250 if q else 8000})
     shards.append({"kind": "negative", "n": 250 if q else 8000})
     shards.append({"kind": "derive", "n": 3000 if q else 200000})
+    shards.append({"kind": "session", "n": 150 if q else 6000})
     for s in shards:
         s["budget_s"] = 50 if q else 1500
         s["timeout_s"] = 300 if q else 3600
@@ -235,6 +269,11 @@ def run_shard(shard, ctx):
             else:
                 blob = R.rsa_encrypt_pkcs1(rng, k.n, k.e, R.meta_pack(f, info, size=R.META_HDR - 8 + len(info) + rng.choice([1, 2, 100, 0x7FFFFFFF])))
             check_case({"op": "negative", "key": kname, "blob": blob, "what": what}, ctx)
+    elif kind == "session":
+        for i in range(shard["n"]):
+            if ctx.out_of_time():
+                break
+            check_case({"op": "session", "key": rng.choice(KEYS), "seed": rng.getrandbits(32), "variant": ["rsa", "rsa+aes", "rsa+aes+hmac"][i % 3]}, ctx)
     elif kind == "derive":
         for i in range(shard["n"]):
             if ctx.out_of_time():
